@@ -1529,6 +1529,17 @@ static int handle_command(char *line)
 		pending_eintr = 1;
 		return 1;
 	}
+	if (strcmp(cmd, "eintr") == 0) {
+		/* epoll_wait() interrupted without any handler of the daemon having run (the process was stopped and continued):
+		 * -1 / EINTR, nothing harvested, every pending edge stays pending */
+		if (daemon_exited) {
+			ds_printf(&out, "{\"exit\":%d}", daemon_status);
+			reply();
+			return 0;
+		}
+		pending_eintr = 1;
+		return 1;
+	}
 	if (strcmp(cmd, "abortloop") == 0) {
 		if (daemon_exited) {
 			ds_printf(&out, "{\"exit\":%d}", daemon_status);
